@@ -4,6 +4,10 @@ impl Tag {
     #[verifier::external_body]
     pub fn clone(&self) -> (r: Tag) ensures r == *self { unimplemented!() }
 }
+/// ASSUMED machine fact (used wherever `small()` is required): a Vec of handles / entries has at most isize::MAX bytes, hence fewer
+/// than usize::MAX elements
+pub broadcast axiom fn axiom_small(tb: &TreeBuilder)
+    ensures #[trigger] tb.small();
 /// no DOM operation was asked of the sink, no element created
 pub open spec fn sink_quiet(a: Sink, b: Sink) -> bool { a.dom == b.dom && a.created == b.created }
 pub open spec fn html_named(h: Handle, name: LocalName) -> bool { elem_name_of(h) == (ExpandedName { ns: ns!(html), local: name }) }
@@ -18,8 +22,9 @@ impl TreeBuilder {
     pub open spec fn same_but_stack_list(&self, o: &TreeBuilder) -> bool {
         *self == (TreeBuilder { open_elems: self.open_elems, active_formatting: self.active_formatting, sink: self.sink, ..*o })
     }
-    /// ASSUMPTION (machine arithmetic): a Vec of handles has fewer than usize::MAX entries (it has at most isize::MAX bytes)
-    pub open spec fn small(&self) -> bool { self.open_elems.v@.len() < usize::MAX && self.active_formatting.v@.len() < usize::MAX }
+    /// ASSUMPTION (machine arithmetic): fewer than 2^31 open elements (the adoption agency algorithm counts them in an i32) and
+    /// fewer than usize::MAX - 16 entries in the list of active formatting elements (a Vec has at most isize::MAX bytes)
+    pub open spec fn small(&self) -> bool { self.open_elems.v@.len() < 0x7fff_fff0 && self.active_formatting.v@.len() < usize::MAX - 16 }
 }
 
 /// "has an element in the specific scope consisting of a list of element types list": 1. node := current node;
